@@ -306,12 +306,6 @@ class CustomParser(Parser):
         self.block_elements["FencedCode"] = CustomFencedCode
 
 
-# A bare URL or email address (GFM extended autolink) at the end of the text.
-_bare_autolink_at_end_re = re.compile(
-    r"(?:^|[\s(*_~])(?:(?:https?://|ftp://|www\.)\S+|[\w.+-]+@[\w-]+(?:\.[\w-]+)+)$"
-)
-
-
 class MarkdownNormalizer(Renderer):
     """
     Render Markdown in normalized form. This is the internal implementation
@@ -334,6 +328,7 @@ class MarkdownNormalizer(Renderer):
         self._line_wrapper: LineWrapper = line_wrapper
         self._skip_next_blank_line: bool = False  # Skip blank line following heading
         self._current_inline_text: str = ""  # Track accumulated inline text for escape context
+        self._bare_url_end: tuple[int, str] = (-1, "")  # End of the last bare URL in that text
         self._in_heading: bool = False  # Track if we're rendering a heading
         self._list_spacing: ListSpacing = list_spacing
         self._current_list_tight: bool = False  # Whether current list should render tight
@@ -747,6 +742,14 @@ class MarkdownNormalizer(Renderer):
             self._current_inline_text += f"\\{char}"
             return f"\\{char}"
 
+        # An escaped period may keep a word from being an autolink (`a@b\\.c`, `www\\.x.y`).
+        words = self._current_inline_text.split()
+        if words and not self._current_inline_text[-1:].isspace():
+            word = words[-1]
+            if "@" in word or "://" in word or word.lower().startswith("www"):
+                self._current_inline_text += f"\\{char}"
+                return f"\\{char}"
+
         # For all other period cases, the escape is not needed
         self._current_inline_text += char
         return char
@@ -768,7 +771,8 @@ class MarkdownNormalizer(Renderer):
                 # A literal backslash right before the break is escaped, or it would be
                 # read together with the backslash of the break as an escaped backslash.
                 return "\\\\\n"
-            if _bare_autolink_at_end_re.search(text):
+            url_end, url = self._bare_url_end
+            if url_end == len(text) and text.endswith(url):
                 # Directly after a bare URL the backslash would become part of the link.
                 return " \\\n"
         return "\n" if element.soft else "\\\n"
@@ -859,6 +863,8 @@ class MarkdownNormalizer(Renderer):
         """For GFM autolink URLs, just output the URL directly."""
         text = self._autolink_text(element)
         self._current_inline_text += text
+        # Remember where the bare URL ends (see `render_line_break()`).
+        self._bare_url_end = (len(self._current_inline_text), text)
         return text
 
     def render_alert(
